@@ -188,6 +188,10 @@ func describe(v any) string {
 
 // sameObject: pointer identity of two component values.
 func sameObject(a, b any) bool {
+	if fa, ok := a.(scen.WF); ok { // func values cannot be compared: a closure is known by what it captured
+		fb, ok := b.(scen.WF)
+		return ok && fa.Serial() == fb.Serial()
+	}
 	defer func() { recover() }()
 	return a == b
 }
